@@ -87,6 +87,16 @@ pub mod mc {
         while i > 0 { i -= 1; if h[i] == n { return Some(i); } }
         None
     }
+    pub fn memchr2(n1: u8, n2: u8, h: &[u8]) -> Option<usize> {
+        let mut i = 0;
+        while i < h.len() { if h[i] == n1 || h[i] == n2 { return Some(i); } i += 1; }
+        None
+    }
+    pub fn memchr3(n1: u8, n2: u8, n3: u8, h: &[u8]) -> Option<usize> {
+        let mut i = 0;
+        while i < h.len() { if h[i] == n1 || h[i] == n2 || h[i] == n3 { return Some(i); } i += 1; }
+        None
+    }
     pub mod memmem {
         pub fn find(h: &[u8], n: &[u8]) -> Option<usize> {
             if n.len() > h.len() { return None; }
@@ -98,6 +108,34 @@ pub mod mc {
                 p += 1;
             }
             None
+        }
+        pub fn rfind(h: &[u8], n: &[u8]) -> Option<usize> {
+            if n.len() > h.len() { return None; }
+            let mut p = h.len() - n.len() + 1;
+            while p > 0 {
+                p -= 1;
+                let mut j = 0; let mut eq = true;
+                while j < n.len() { if h[p + j] != n[j] { eq = false; break; } j += 1; }
+                if eq { return Some(p); }
+            }
+            None
+        }
+        /// like the memchr crate: successive NON-overlapping occurrences
+        pub struct FindIter<'h, 'n> { h: &'h [u8], n: &'n [u8], pos: usize }
+        pub fn find_iter<'h, 'n>(h: &'h [u8], n: &'n [u8]) -> FindIter<'h, 'n> { FindIter { h, n, pos: 0 } }
+        impl<'h, 'n> Iterator for FindIter<'h, 'n> {
+            type Item = usize;
+            fn next(&mut self) -> Option<usize> {
+                if self.pos > self.h.len() { return None; }
+                match find(&self.h[self.pos..], self.n) {
+                    None => None,
+                    Some(i) => {
+                        let at = self.pos + i;
+                        self.pos = at + if self.n.len() == 0 { 1 } else { self.n.len() };
+                        Some(at)
+                    }
+                }
+            }
         }
     }
 }
